@@ -25,6 +25,7 @@ func init() {
 			{Name: "zero-slot targets are placed", File: "route/route.go", Old: "\t\tif s.n <= 0 {\n\t\t\tcontinue\n\t\t}\n", New: "", Expect: "C04.R"},
 			{Name: "no guard on usedSlots", File: "route/route.go", Old: "\tif usedSlots <= 0 {\n\t\tr.wTargets = nil\n\t\treturn\n\t}\n", New: "", Expect: "C04.R5"},
 			{Name: "non-finite weights accepted again", File: "route/parse_new.go", Old: "if err != nil || math.IsNaN(f) || math.IsInf(f, 0) {", New: "if err != nil || (f < 0 && (math.IsNaN(f) || math.IsInf(f, 0))) {", Expect: "C04.R5"},
+			{Name: "remainder weight not clamped", File: "route/route.go", Old: "\tif dynamic < 0 {\n\t\tdynamic = 0\n\t}\n", New: "", Expect: "C04.R6"},
 			{Name: "benign: floor written as n < 1", File: "route/route.go", Old: "if n == 0 && t.Weight > 0 {", New: "if t.Weight > 0 && n < 1 {", Expect: ""},
 			{Name: "benign: index from AddUint64(...)-1 inline", File: "route/picker.go", Old: "\tn := atomic.AddUint64(&r.total, 1) - 1\n\treturn r.wTargets[n%uint64(len(r.wTargets))]", New: "\treturn r.wTargets[(atomic.AddUint64(&r.total, 1)-1)%uint64(len(r.wTargets))]", Expect: ""},
 		},
@@ -36,6 +37,7 @@ func runC04(c *Ctx) {
 	runPickersAs(c, "C04.R2", "C04.R3")
 	runC04R4(c)
 	runC04R5(c)
+	runC04R6(c)
 }
 
 // runPickersAs re-labels the picker rule for C04 (R2 ring element, R3 index from RMW).
